@@ -22,6 +22,7 @@ import (
 	"time"
 
 	"github.com/go-stack/stack"
+	"gitlab.com/aquachain/aquachain/common/verifhook"
 )
 
 const timeKey = "time"
@@ -200,6 +201,7 @@ func (l *logger) Error(msg string, ctx ...interface{}) {
 
 func (l *logger) Crit(msg string, ctx ...interface{}) {
 	l.write(msg, LvlCrit, ctx)
+	verifhook.Crit(msg)
 	time.Sleep(100 * time.Millisecond) // no so fast there
 	os.Exit(1)
 }
